@@ -1,5 +1,6 @@
 import Treepath.Proofs.Drive
 import Treepath.Proofs.EvalLemmas
+import Treepath.Proofs.Budget
 /-
 C01 — child-step selection is exact, ordered and by reference.
 Property theorems only (helper lemmas live in Proofs/).
@@ -90,6 +91,21 @@ theorem machine_yields_definition (steps : Array (Step J)) (d : J)
     intro s hs f hf; have := (hchild s hs).1; rw [hf] at this; simp [Step.isChild] at this
   exact exhausted_all steps (.doc d) (quiet_of_filterFree _ (fun s hs => ⟨(hchild s hs).2, hff s hs⟩))
     (clean_of_filterFree steps hff) limit st' st'' rs E evs hy hstop
+
+/-- the same as one equation, with the budget made explicit: `list(find_matches(p, d))`
+(the model's `drain` with the real, source-generated budget) **is** `eval p d` for every
+document and every path of child steps whose definition needs fewer than `(budget - 3) / 6`
+examinations; no error, no premise about the run -/
+theorem list_find_matches_is_definition (steps : Array (Step J)) (d : J)
+    (hchild : ∀ s ∈ steps.toList, s.isChild = true ∧ s.supported = true)
+    (hb : 6 * exams steps.toList (.root d) + 3 < Generated.loopBudget) (fuel : Nat)
+    (hf : (eval steps.toList (.root d)).length < fuel) :
+    drain ({ view := J.view, toJ := id } : Ctx J) steps (.doc d) fuel freshIter = (eval steps.toList (.root d), none) := by
+  have hff : ∀ s ∈ steps.toList, ∀ f, s ≠ .filter f := by
+    intro s hs f hf; have := (hchild s hs).1; rw [hf] at this; simp [Step.isChild] at this
+  exact drain_is_eval steps (.doc d) { view := J.view, toJ := id } rfl
+    (quiet_of_filterFree _ (fun s hs => ⟨(hchild s hs).2, hff s hs⟩)) (clean_of_filterFree steps hff)
+    (fun s hs f hf => absurd hf (hff s hs f)) hb fuel freshIter [] [] _ (.nil _) (by simp [Src.rootNode]) hf
 
 /-- "by reference": every node a child step selects is a `child` of the context carrying a
 value that *is* one of the context container's own members (the model's values are the
